@@ -79,11 +79,30 @@ def gen_nodes(rng, nmin=2, nmax=6, maxjobs=10):
 
 
 def njobs(nd):
+    if "njobs" in nd:
+        return nd["njobs"]
     return 1 if nd["split"] is None else nd["split"]
 
 
 def all_jobs(nodes):
-    return [(nd["id"], (-1 if nd["split"] is None else i)) for nd in nodes for i in range(njobs(nd))]
+    return [(nd["id"], (-1 if ("njobs" not in nd and nd["split"] is None) else i)) for nd in nodes
+            for i in range(njobs(nd))]
+
+
+def gen_state_nodes(rng):
+    """A node split over three fields with a partial combiner, and a downstream node that inherits the remaining
+    state and reads its group element-wise (the state-propagating shape of C03/C17)."""
+    while True:
+        dims = [rng.choice([1, 2, 2, 3]) for _ in range(3)]
+        if 4 <= dims[0] * dims[1] * dims[2] <= 12:
+            break
+    comb = rng.choice([["p"], ["p"], ["q"], ["r"], ["p", "q"], ["q", "r"], ["p", "r"]])
+    rem = 1
+    for f, d in zip("pqr", dims):
+        if f not in comb:
+            rem *= d
+    return [dict(id=0, kind="s3", preds=[], dims=dims, combine=comb, njobs=dims[0] * dims[1] * dims[2]),
+            dict(id=1, kind="down", preds=[0], njobs=rem)]
 
 
 def gen_oracle(rng, nj, multi=0.2, visp=None):
@@ -240,7 +259,8 @@ def enc_case(case, obs):
     order_nodes = ordered_nodes(case["nodes"], obs["order"])
     st = obs_status(obs)
     errs = parse_named(obs.get("failed_named") or [])
-    outs = enc_outputs(obs["outputs"], case["nodes"], order_nodes) if obs["outcome"] == "ok" else "[]"
+    plain = case["mode"] in ("async", "sync", "cf")     # only these have outputs in the model's tree encoding
+    outs = enc_outputs(obs["outputs"], case["nodes"], order_nodes) if (obs["outcome"] == "ok" and plain) else "[]"
     return "(%s, %s, %s, %s, (%d, %s, %s, %s, %s, %s))" % (
         enc_graph(order_nodes), enc_k(case.get("k")), enc_jobs([tuple(f) for f in case.get("fail") or []]),
         enc_oracle(case.get("oracle") or []), st, enc_polls(obs["polls"], obs["order"]),
@@ -279,6 +299,25 @@ Definition tie_async (c : case_t) : bool :=
   && list_eqb event_eqb (event_log o) lg
   && same_set job_eqb (error_names o) errs
   && (if (st =? 0) && is_nil errs then outs_eqb (node_outputs g o) outs else true).
+(* second submission with rerun=True over a cache that holds a result for every job *)
+Definition warm_world (g : graph) : world tv := mkW (map (fun j => (j, Some (T 0 0 []))) (all_jobs g)) [].
+Definition warm_of (c : case_t) :=
+  let '(g, k, fl, orc, _) := c in run_async_warm tv T (fails_of fl) %s g k (warm_world g) orc (fuel_of g).
+Definition tie_rerun (c : case_t) : bool :=
+  let '(g, k, fl, orc, (st, pl, it, lg, errs, outs)) := c in
+  let o := warm_of c in
+  (status_code (o_status o) =? st)
+  && list_eqb poll_eqb (poll_log o) pl
+  && list_eqb jobs_eqb (map snd (iterations o)) it
+  && list_eqb event_eqb (event_log o) lg.
+(* scheduling only (state-propagating shapes: the outputs are compared outside Coq) *)
+Definition tie_sched (c : case_t) : bool :=
+  let '(g, k, fl, orc, (st, pl, it, lg, errs, outs)) := c in
+  let o := run_of c in
+  (status_code (o_status o) =? st)
+  && list_eqb poll_eqb (poll_log o) pl
+  && list_eqb jobs_eqb (map snd (iterations o)) it
+  && list_eqb event_eqb (event_log o) lg.
 Definition tie_sync (c : case_t) : bool :=
   let '(g, k, fl, orc, (st, pl, it, lg, errs, outs)) := c in
   let o := sync_of c in
@@ -286,7 +325,7 @@ Definition tie_sync (c : case_t) : bool :=
   && list_eqb poll_eqb (poll_log o) pl
   && list_eqb event_eqb (event_log o) lg
   && (if (st =? 0) then outs_eqb (node_outputs g o) outs else true).
-""" % (CASE_T, variant, variant)
+""" % (CASE_T, variant, variant, variant)
 
 
 # --------------------------------------------------------------------------- the shared driver engine
@@ -340,7 +379,7 @@ def case_key(case, obs):
 
 
 def nontrivial(case):
-    return len(case["nodes"]) >= 2 and any(n["preds"] for n in case["nodes"]) and \
+    return len(case["nodes"]) >= 2 and any(n.get("preds") for n in case["nodes"]) and \
         sum(njobs(n) for n in case["nodes"]) >= 3
 
 
@@ -349,7 +388,10 @@ def evaluate(ctx, name, cases, obs, spec_defs, spec_fn, variant="repaired"):
     {"tie": [case indices], "spec": [case indices]}."""
     usable = [i for i, o in enumerate(obs) if o.get("outcome") in ("ok", "error") and o.get("order")]
     bad = {"tie": [], "spec": []}
-    for mode, tie in (("async", "tie_async"), ("sync", "tie_sync"), ("cf", "(fun _ : case_t => true)")):
+    none = "(fun _ : case_t => true)"
+    for mode, tie in (("async", "tie_async"), ("sync", "tie_sync"), ("cf", none), ("rerun", "tie_rerun"),
+                      ("rerun_sync", none), ("rerun_cf", none), ("state", "tie_sched"), ("state_sync", none),
+                      ("state_cf", none)):
         idx = [i for i in usable if cases[i]["mode"] == mode]
         if not idx:
             continue
@@ -377,7 +419,7 @@ def model_values(ctx, case, obs, terms, spec_defs="", variant="repaired"):
 
 
 def drive(ctx, name, spec_defs, n_async, n_sync, n_exh, rule, spec_note, fail_p=0.5, force_k=False, extra_cases=(),
-          model_terms=None, nproc=None):
+          model_terms=None, nproc=None, classify=None):
     """The common part of the four drivers: build cases (corpus first), run them in fresh interpreters,
     let Coq evaluate tie and spec, fill an Outcome.  Returns (outcome, cases, obs, usable, bad)."""
     from .runner import Outcome, Failure
@@ -414,7 +456,7 @@ def drive(ctx, name, spec_defs, n_async, n_sync, n_exh, rule, spec_note, fail_p=
     for i in usable:
         c, o = cases[i], obs[i]
         out.evaluations += 1
-        dist[c["mode"]] += 1
+        dist[c["mode"]] = dist.get(c["mode"], 0) + 1
         dist["with_failures"] += bool(c.get("fail"))
         dist["k_limited"] += c.get("k") is not None
         dist["exhaustive_small"] += bool(c.get("exh"))
@@ -438,8 +480,20 @@ def drive(ctx, name, spec_defs, n_async, n_sync, n_exh, rule, spec_note, fail_p=
             out.failures.append(Failure(case=cases[i], observed=o, expected="a run", kind="tie",
                                         note="the implementation could not be driven (harness error)"))
     for kind in ("spec", "tie"):
-        for i in bad[kind][:6]:
-            terms = ["event_log (run_of c)" if cases[i]["mode"] != "sync" else "event_log (sync_of c)", "spec_ok c"]
+        chosen = bad[kind][:6]
+        if classify and kind == "spec":
+            # one example per finding class, and every unclassified one
+            seen_f, chosen = set(), []
+            for i in bad[kind]:
+                f = classify(cases[i], obs[i])
+                if f is None or f not in seen_f:
+                    chosen.append(i)
+                    seen_f.add(f)
+            chosen = chosen[:8]
+        for i in chosen:
+            m = cases[i]["mode"]
+            terms = ["event_log (sync_of c)" if m == "sync" else ("event_log (warm_of c)" if m.startswith("rerun") else
+                                                                  "event_log (run_of c)"), "spec_ok c"]
             terms += list(model_terms or [])
             try:
                 vals = model_values(ctx, cases[i], obs[i], terms, spec_defs)
@@ -448,7 +502,7 @@ def drive(ctx, name, spec_defs, n_async, n_sync, n_exh, rule, spec_note, fail_p=
             out.failures.append(Failure(
                 case=cases[i], observed=slim(obs[i]),
                 expected=dict(zip(["model_event_log", "spec_holds_on_observation"] + list(model_terms or []), vals)),
-                kind=kind,
+                kind=kind, finding=(classify(cases[i], obs[i]) if (classify and kind == "spec") else None),
                 note=(spec_note if kind == "spec"
                       else "Model.Sched run != implementation (polls, launches, log, errors or outputs)")))
     return out, cases, obs, usable, bad
@@ -460,9 +514,12 @@ def replay_case(ctx, payload, spec_defs):
     print("implementation:", json.dumps(slim(o), default=repr)[:3000])
     if case["mode"] == "cf":
         print("cf run: peak concurrency", o.get("cf_peak"), "outputs", o.get("outputs"))
-    terms = ["event_log (run_of c)" if case["mode"] != "sync" else "event_log (sync_of c)", "spec_ok c"]
-    if case["mode"] != "cf":
-        terms.append("tie_async c" if case["mode"] == "async" else "tie_sync c")
+    m = case["mode"]
+    terms = ["event_log (sync_of c)" if m == "sync" else ("event_log (warm_of c)" if m.startswith("rerun") else
+                                                          "event_log (run_of c)"), "spec_ok c"]
+    tie = {"async": "tie_async c", "sync": "tie_sync c", "rerun": "tie_rerun c", "state": "tie_sched c"}.get(m)
+    if tie:
+        terms.append(tie)
     vals = model_values(ctx, case, o, terms, spec_defs)
     print("model event log:", vals[0])
     print("spec on the observation:", vals[1])
@@ -472,4 +529,4 @@ def replay_case(ctx, payload, spec_defs):
 
 def slim(obs):
     return {k: obs.get(k) for k in ("outcome", "exc", "failed_named", "evlog", "launches", "steps", "outputs", "maxlive",
-                                    "order", "msg", "cf_peak", "cf_bodies") if k in obs}
+                                    "order", "msg", "cf_peak", "cf_bodies", "generations") if k in obs}
